@@ -1074,6 +1074,12 @@ func (p *printer) expr1(expr ast.Expr, prec1, depth int) {
 			p.print(token.RBRACE)
 		}
 	case *ast.ErrWrapExpr:
+		if x.Default != nil && prec1 >= token.HighestPrec { // `x?:d` is not a primary expression: (x?:d)[i]
+			p.print(token.LPAREN)
+			p.expr1(x, token.LowestPrec, depth)
+			p.print(token.RPAREN)
+			break
+		}
 		p.expr1(x.X, token.HighestPrec, depth) // the operand is a primary expression
 		p.print(x.Tok)
 		if x.Default != nil {
